@@ -22,7 +22,8 @@ pub static PROP: Prop = Prop {
            evaluated). Field names come from two alphabets (plain; names of built-in functions) counted separately. \
            Non-trivial = some argument/path is absent or fails otherwise; distinct by canonical case.",
     assumptions: &[
-        "field access (.f) on a value that is not a map is not asserted (rscel treats it as absent; ['f'] on it fails)",
+        "field access (.f) on a bound int/uint/double/bool/string/bytes/list/null value is an absent field (the property's \
+         configuration 'intermediate not a map'; interp.rs builds an Attribute error for it); ['f'] on such a value is another failure",
         "a field whose name equals a built-in function/macro name and is absent from the map is a bound method: not asserted (DESIGN 8.10)",
     ],
     run,
@@ -100,6 +101,7 @@ fn check_case(c: &Case, sub: &str, acc: &mut Acc) -> Vec<Failure> {
     let progs = BTreeMap::new();
     let fs = recorders();
     let mut ctx = Ctx::new(&vars, &progs, &fs);
+    ctx.nonmap_field_absent = true;
     let expected = ctx.eval(&c.e, &mut Vec::new());
     let want_log = ctx.log.clone();
     let log_known = !ctx.log_unspecified;
@@ -178,7 +180,15 @@ fn path_cases(alphabet: &[&'static str], tag: &'static str) -> Vec<Case> {
                 m.insert("sib".to_string(), V::Int(0));
                 configs.push((format!("missing-at-{}", j), Some(nest(&names[..j], V::Map(m)))));
                 // intermediate at level j is not a map
-                configs.push((format!("non-map-at-{}", j), Some(nest(&names[..j], V::Int(5)))));
+                for (t, v) in [
+                    ("int", V::Int(5)),
+                    ("str", V::s("txt")),
+                    ("list", V::List(vec![V::Int(1), V::Int(2)])),
+                    ("null", V::Null),
+                    ("bool", V::Bool(true)),
+                ] {
+                    configs.push((format!("non-map-{}-at-{}", t, j), Some(nest(&names[..j], v))));
+                }
             }
             for (cname, rv) in configs {
                 let mut binds = base_binds();
